@@ -26,19 +26,19 @@ Definition regex_sites : list re_site := [
   (* interp/interp.go:43 *)
   mkReSite "interp" "interp.go" "(package variable)" "MustCompile" "`(?s)^([_a-zA-Z][_a-zA-Z0-9]*)=(.*)`"
     (TPkgVar "varRegex") false [] false;
-  (* interp/interp.go:893 *)
+  (* interp/interp.go:897 *)
   mkReSite "interp" "interp.go" "setSpecial" "Compile" "compiler.AddRegexFlags(p.fieldSep)"
     (TLocal "re") true [] true;
-  (* interp/interp.go:919 *)
+  (* interp/interp.go:923 *)
   mkReSite "interp" "interp.go" "setSpecial" "MustCompile" "sep"
     (TField "p.recordSepRegex") true [] true;
-  (* interp/interp.go:924 *)
+  (* interp/interp.go:928 *)
   mkReSite "interp" "interp.go" "setSpecial" "MustCompile" "sep"
     (TField "p.recordSepRegex") true [] true;
-  (* interp/interp.go:927 *)
+  (* interp/interp.go:931 *)
   mkReSite "interp" "interp.go" "setSpecial" "Compile" "compiler.AddRegexFlags(p.recordSep)"
     (TLocal "re") true [] true;
-  (* interp/interp.go:1088 *)
+  (* interp/interp.go:1092 *)
   mkReSite "interp" "interp.go" "compileRegex" "Compile" "compiler.AddRegexFlags(regex)"
     (TLocal "re") true [] true;
   (* internal/compiler/compiler.go:1114 *)
